@@ -343,3 +343,82 @@ func EnclosingTop(f *ssa.Function) *ssa.Function {
 	}
 	return f
 }
+
+// Walk explores the CFG forward starting just after instruction from. visit is called on each
+// instruction reached; returning true stops the exploration along that path. edgeOK (may be nil)
+// filters CFG edges: it receives the block and the index of the successor.
+func Walk(from ssa.Instruction, edgeOK func(b *ssa.BasicBlock, succ int) bool, visit func(i ssa.Instruction) bool) {
+	b := from.Block()
+	start := InstrIndex(from) + 1
+	seen := map[*ssa.BasicBlock]bool{}
+	var run func(b *ssa.BasicBlock, start int)
+	run = func(b *ssa.BasicBlock, start int) {
+		for k := start; k < len(b.Instrs); k++ {
+			if visit(b.Instrs[k]) {
+				return
+			}
+		}
+		for si, s := range b.Succs {
+			if edgeOK != nil && !edgeOK(b, si) {
+				continue
+			}
+			if seen[s] {
+				continue
+			}
+			seen[s] = true
+			run(s, 0)
+		}
+	}
+	run(b, start)
+}
+
+// WalkBlock is Walk starting at the first instruction of block b (inclusive).
+func WalkBlock(b *ssa.BasicBlock, edgeOK func(b *ssa.BasicBlock, succ int) bool, visit func(i ssa.Instruction) bool) {
+	seen := map[*ssa.BasicBlock]bool{b: true}
+	var run func(b *ssa.BasicBlock)
+	run = func(b *ssa.BasicBlock) {
+		for _, i := range b.Instrs {
+			if visit(i) {
+				return
+			}
+		}
+		for si, s := range b.Succs {
+			if edgeOK != nil && !edgeOK(b, si) {
+				continue
+			}
+			if seen[s] {
+				continue
+			}
+			seen[s] = true
+			run(s)
+		}
+	}
+	run(b)
+}
+
+// OnlyWhenPathTrue builds an edge filter that, at every If whose condition is the boolean access
+// path ending in suffix (possibly negated), follows only the edge on which the path is true.
+func OnlyWhenPathTrue(suffix string) func(b *ssa.BasicBlock, succ int) bool {
+	return func(b *ssa.BasicBlock, succ int) bool {
+		ifi, ok := b.Instrs[len(b.Instrs)-1].(*ssa.If)
+		if !ok {
+			return true
+		}
+		v, sense := ifi.Cond, true
+		for {
+			u, ok := v.(*ssa.UnOp)
+			if ok && u.Op == token.NOT {
+				v, sense = u.X, !sense
+				continue
+			}
+			break
+		}
+		p, ok := Path(v)
+		if !ok || !strings.HasSuffix(p, suffix) {
+			return true
+		}
+		// succ 0 is taken when Cond is true
+		condTrue := succ == 0
+		return condTrue == sense
+	}
+}
